@@ -1,18 +1,29 @@
 import java.math.BigInteger;
 import tlc2.value.impl.*;
+/** TLC module override for Dec18.tla: the operators whose intermediates exceed TLC's 32-bit integers.
+ *  The *_core methods work on BigInteger atomics and are also used by Dec18Check (kernel check against
+ *  cosmwasm_std at full magnitude, outside TLC). */
 public class Dec18 {
   static final BigInteger E9 = BigInteger.valueOf(1000000000L), E18 = E9.multiply(E9);
+  // ---- cores (meaning of the operators, on unbounded integers; a Decimal is its atomics)
+  public static BigInteger fromRatioCore(BigInteger n, BigInteger d){ return n.multiply(E18).divide(d); }
+  public static BigInteger mulDecCore(BigInteger x, BigInteger dec){ return x.multiply(dec).divide(E18); }
+  public static BigInteger divDecCore(BigInteger x, BigInteger dec){ return x.multiply(E18).divide(dec); }
+  public static BigInteger decMulIntCore(BigInteger dec, BigInteger k){ return dec.multiply(k); }
+  public static BigInteger decInvCore(BigInteger dec){ return E18.multiply(E18).divide(dec); }
+  public static BigInteger mulDivFloorCore(BigInteger x, BigInteger a, BigInteger b){ return x.multiply(a).divide(b); }
+  // ---- TLC values
   static BigInteger n(Value v){ return BigInteger.valueOf(((IntValue)v).val); }
   static BigInteger at(Value d){ Value[] e = ((TupleValue)d.toTuple()).elems;
     return n(e[0]).multiply(E18).add(n(e[1]).multiply(E9)).add(n(e[2])); }
   static Value dec(BigInteger v){ BigInteger[] q = v.divideAndRemainder(E18); BigInteger[] r = q[1].divideAndRemainder(E9);
     return new TupleValue(new Value[]{ IntValue.gen(q[0].intValueExact()), IntValue.gen(r[0].intValueExact()), IntValue.gen(r[1].intValueExact()) }); }
-  public static Value DecFromRatio(Value a, Value b){ return dec(n(a).multiply(E18).divide(n(b))); }
-  public static Value MulDec(Value x, Value d){ return IntValue.gen(n(x).multiply(at(d)).divide(E18).intValueExact()); }
-  public static Value DivDec(Value x, Value d){ return IntValue.gen(n(x).multiply(E18).divide(at(d)).intValueExact()); }
-  public static Value DecMulInt(Value d, Value k){ return dec(at(d).multiply(n(k))); }
-  public static Value DecInv(Value d){ return dec(E18.multiply(E18).divide(at(d))); }
+  public static Value DecFromRatio(Value a, Value b){ return dec(fromRatioCore(n(a), n(b))); }
+  public static Value MulDec(Value x, Value d){ return IntValue.gen(mulDecCore(n(x), at(d)).intValueExact()); }
+  public static Value DivDec(Value x, Value d){ return IntValue.gen(divDecCore(n(x), at(d)).intValueExact()); }
+  public static Value DecMulInt(Value d, Value k){ return dec(decMulIntCore(at(d), n(k))); }
+  public static Value DecInv(Value d){ return dec(decInvCore(at(d))); }
   public static Value DecFromRatio2(Value a, Value b, Value d){ return dec(n(a).multiply(n(b)).multiply(E18).divide(n(d))); }
   public static Value AbsCrossDiffLe(Value a, Value b, Value c, Value d, Value k){ return n(a).multiply(n(b)).subtract(n(c).multiply(n(d))).abs().compareTo(n(k)) <= 0 ? BoolValue.ValTrue : BoolValue.ValFalse; }
-  public static Value MulDivFloor(Value x, Value a, Value b){ return IntValue.gen(n(x).multiply(n(a)).divide(n(b)).intValueExact()); }
+  public static Value MulDivFloor(Value x, Value a, Value b){ return IntValue.gen(mulDivFloorCore(n(x), n(a), n(b)).intValueExact()); }
 }
